@@ -80,7 +80,7 @@ def h11_worker(S, n_msgs=3, backend="mem"):
     # service A: ping@shared, report@a_private ; service B: report@shared (run or not)
     kinds = []
     for i in range(n_msgs):
-        kinds.append(["ping@shared", "report@shared", "report@a_private", "unknown@shared"][S.pick(f"msg{i}", 4)])
+        kinds.append(["ping@shared", "report@shared", "report@a_private", "unknown@shared", "ping_extra@shared"][S.pick(f"msg{i}", 5)])
     run_b = S.flag("service_b_runs")
     ran = []
     out = {}
@@ -132,7 +132,7 @@ def h11_worker(S, n_msgs=3, backend="mem"):
     for i, kd in enumerate(kinds):
         mid = f"m{i}"
         owner = {"ping@shared": "A.ping", "report@a_private": "A.report", "report@shared": "B.report" if run_b else None,
-                 "unknown@shared": None}[kd]
+                 "unknown@shared": None, "ping_extra@shared": None}[kd]
         execs = [who for who, j in ran if j == i]
         if owner is None:
             S.cover("foreign-message")
@@ -154,7 +154,7 @@ HARNESSES = [
             functions=["router.py:Router.actor", "router.py:Router.include_router", "worker.py:Worker.__init__"], covers=["routers-checked"]),
     Harness(name="H11-worker", scenario=h11_worker, workers=16, budget_s=900,
             params={"quick": {"n_msgs": 3}, "thorough": {"n_msgs": 4}},
-            bounds={"messages": "3 (quick) / 4 (thorough), each one of ping@shared, report@shared, report@a_private, unknown@shared",
+            bounds={"messages": "3 (quick) / 4 (thorough), each one of ping@shared, report@shared, report@a_private, unknown@shared, ping_extra@shared (a topic that extends an own topic's name)",
                     "workers": "service A (ping@shared, report@a_private) always; service B (report@shared) running or not"},
             functions=["worker.py:Worker.run", "_runner.py:_Runner.run_one_queue", "connections/in_memory/consumer.py:_InMemoryConsumer.consume"],
             covers=["workers-ran", "foreign-message"]),
